@@ -6,6 +6,18 @@ ALL = ['C%02d' % i for i in range(1, 21)]
 
 # id -> (engine, technique, level text, level note, design ref)
 CLAIMED = {
+ 'C05': ('E3-hypothesis', 'stateful property testing: Hypothesis-generated conversion histories in one process, differential against the same call made first in a fresh process',
+         'Histories of up to 12 conversions (12 formats, 10 extension sets, 7 languages, string/DString/to_data/reused-engine shapes, in-place source replacement, random-anchor steps as pure history, pool bracket per step or per history) run in one sanitised worker that is restarted for every history; every compared step must equal the bytes a fresh process gives first, and the caller\'s buffer must be unchanged. Held on everything generated.',
+         'Trusted: Hypothesis, the plain build as reference executor, lib/pkg.py mask for declared-random package fields.',
+         'DESIGN.md section 5, C05'),
+ 'C06': ('E3-hypothesis', 'differential testing across API variants and the CLI over Hypothesis-generated and corpus sources',
+         'For every generated (source, format, extensions, language) the 9 library variants and (sampled) the CLI on stdout / -o / -b are executed and compared byte for byte (archives member by member under a mask); metadata queries and updates are compared across the three families; NULL results, missing or empty output files are violations. Held on everything generated.',
+         'Trusted: Hypothesis, Python zipfile, the mask of lib/pkg.py. CLI legs use sources for which main.c\'s pre-processing is the identity.',
+         'DESIGN.md section 5, C06'),
+ 'C20': ('E3-hypothesis', 'metamorphic testing (snippet/complete/default relations, metadata insertion/permutation/removal) over generated and corpus bodies',
+         'Relations R1-R4 (snippet verbatim inside complete with body-independent wrapper; default is exactly one of the two, decided by non-control keys; other keys never change the snippet; control keys change only what they document) are evaluated for HTML, LaTeX, Beamer, Memoir through the library and, sampled, the CLI -f/-s. Held on everything generated.',
+         'Trusted: Hypothesis; the list of rendering-control keys is taken from the statement. bibtex / mmd header / mmd footer / transclude base are never generated.',
+         'DESIGN.md section 5, C20'),
  'C13': ('E3-hypothesis', 'model-based property testing (Hypothesis include-graph generator materialised as real directory trees vs. Python reference expander), timeout as non-termination signal',
          'Generated include graphs (trees, DAGs with sharing, self loops, cycles, missing targets, nested directories, absolute/relative/.. paths, transclude-base overrides, wildcards, {{TOC}}, over-long and unterminated markers) are expanded by the library and, sampled, by the CLI; acyclic graphs must equal an independent reference expansion byte for byte and give the right manifest, every graph must terminate with bounded output. Held on everything generated.',
          'Trusted: Hypothesis, the reference expander in props/c13.py, the file system. A 20 s (+60 s confirmation) timeout is the non-termination signal.',
